@@ -3,6 +3,7 @@ package harness
 import (
 	"bytes"
 	"encoding/base64"
+	"encoding/binary"
 	"fmt"
 	"io"
 	"math/rand/v2"
@@ -302,6 +303,24 @@ func muxHarness(rc *RunCtx) {
 			infra = "open: " + err.Error()
 			finished = true
 			return
+		}
+		if kind == "adapter" && tp.Intn("reconn", 6) == 5 {
+			// an earlier connection died in the middle of a frame and the transport was opened again:
+			// nothing of the dead connection may reach into this one
+			rc.Fault("connection-lost-mid-frame-then-reopened")
+			size := []int{50, 5000, 70000, 1 << 20}[tp.Intn("reconn", 4)]
+			k := tp.Intn("reconn", 60)
+			partial := make([]byte, 4+k)
+			binary.BigEndian.PutUint32(partial, uint32(size))
+			ch := tr.Closed()
+			st.PeerWrite(partial)
+			st.PeerEnd(nil)
+			simrt.Recv(simrt.HarnessSite("mux.wait-closed"), ch)
+			if err := tr.Open(); err != nil {
+				infra = "reopen: " + err.Error()
+				finished = true
+				return
+			}
 		}
 		for i := 0; i < nCallers; i++ {
 			i := i
